@@ -327,6 +327,22 @@ def run(ctx):
                 ctx.unknown("C15.helpers", f_.ident, loc_of(f_, c_), f"from_dlpack({src_txt[:40]}): the library of the source array is not established by the enclosing tests", disc=f"dlpack|{n_dl}")
     ctx.count("dlpack_hand_overs", n_dl)
 
+    # ---- every transform the front end or a sampler builds for itself is built in that object's dtype: a transform without one takes the namespace default
+    #      (float32 under torch), and fit_preconditioning_transform casts the population to the transform's dtype before the kernel sees it
+    n_tc = 0
+    for f_ in repo.all_functions():
+        mod_ = f_.ident.split(":")[0]
+        if not (mod_.startswith("aspire.samplers") or mod_ == "aspire.aspire") or f_.cls is None:
+            continue
+        for n_ in walk_no_nested(f_.node):
+            if isinstance(n_, ast.Call) and isinstance(n_.func, ast.Name) and n_.func.id.endswith("Transform") and n_.func.id[0].isupper():
+                n_tc += 1
+                has = any(k.arg == "dtype" for k in n_.keywords) or any(k.arg is None for k in n_.keywords)
+                ctx.decide(has, "C15.pop", f_.ident, loc_of(f_, n_), f"{n_.func.id}(...) is built with the object's dtype",
+                           f"{n_.func.id}(...) is built without a dtype: under torch it takes the default float32, and a sampler built for float64 then hands its populations to the kernel "
+                           "rounded to float32 (fit_preconditioning_transform casts to the transform's dtype); the populations it builds from the kernel's state keep only single precision",
+                           disc=f"transform-dtype|{n_tc}")
+    ctx.count("transform_constructions_in_front_end_and_samplers", n_tc)
     # ---- samplers do not write in place into arrays they were handed: a proposal output converted without a copy can be a read-only view of a buffer
     #      of another library (NumPy view of a JAX array), which an in-place update cannot modify
     from ..report import reuse as _reuse
@@ -554,6 +570,7 @@ MUTANTS = [
     M("array_to_namespace into numpy always", _S, "x = asarray(x, self.xp, **kwargs)", "x = asarray(x, np, **kwargs)", "C15.a2n"),
 ]
 MUTANTS += [
+    M("fallback identity preconditioning built without the sampler's dtype", "src/aspire/samplers/base.py", "self.preconditioning_transform = IdentityTransform(\n                xp=self.xp, dtype=self.dtype\n            )", "self.preconditioning_transform = IdentityTransform(xp=self.xp)", "C15.pop"),
     M("importance sampler patches the proposal density in place", "src/aspire/samplers/importance.py", "samples.log_prior = samples.array_to_namespace(", "samples.log_q = update_at_indices(samples.log_q, samples.xp.isnan(samples.log_q), samples.xp.inf)\n        samples.log_prior = samples.array_to_namespace(", "C15own.own",
       more=[("from ..utils import track_calls", "from ..utils import track_calls, update_at_indices")]),
     M("from_samples defaults the requested dtype to the source set's dtype object", _S, "dtype = kwargs.pop(\"dtype\", None)\n        if dtype is not None:\n            dtype = resolve_dtype(dtype, xp)", "dtype = kwargs.pop(\"dtype\", samples.dtype)\n        if dtype is not None:\n            dtype = resolve_dtype(dtype, xp)", "C15.dtype"),
